@@ -15,12 +15,14 @@ PKG = "c05"
 def run(ctx):
     ctx.assumptions += [
         "values are opaque to redaction: each key carries one of the value classes std / +-(2^53-1) / string with "
-        "< > & U+2028 / nested object / array / null; integers beyond 2^53-1 and non-integer numbers are not exercised",
+        "< > & U+2028 / nested object / array / null / 0 / \"\" / {} / [] / false / 1E2 (raw JSON only); integers beyond "
+        "2^53-1 and non-integer numbers are not exercised",
         "every event has a string `type` and an object `content` (the specification does not say what redaction "
         "does to anything else)",
         "where the specification is silent nothing is demanded: a third_party_invite object without `signed` may be "
         "dropped or kept as {} (room version 11 algorithm)",
-        "signatures: real ed25519 keys, events signed with PDU.Sign by the sender's server and by a second server; "
+        "signatures: real ed25519 keys, events signed with PDU.Sign by the sender's server (two key IDs) and by a "
+        "second server; "
         "the signature scheme is assumed unforgeable",
         "keys containing a double quote or a backslash are not generated (canonical JSON of such keys is C01's subject)",
     ]
@@ -28,10 +30,14 @@ def run(ctx):
     ctx.notes["rule"] = (
         "every scenario of Redaction_gen.tla: 16 room versions x 8 event types (7 protected + other) x presence shapes "
         "over the pool of optional top-level keys and candidate content keys of the type (none, each key alone, each "
-        "pair, all but one, all; third_party_invite in 5 nested shapes) x value-class offsets (%s), families raw and pdu; "
+        "pair, all but one, all; plus the keys only other types keep: each alone, and all on top of everything; "
+        "third_party_invite in 5 nested shapes) x value-class offsets (%s), families raw (each scenario in 3 spellings "
+        "of the JSON text) and pdu (depth 0 / origin_server_ts 0 by offset; trusted, untrusted, with-event-ID, headered, "
+        "SetUnsigned, already-redacted and EventBuilder.Build entry points); "
         "distinct = distinct (family, algorithm, type, kept top-level set, kept content set, kept nested set)"
-        % ("all 6 with the full lattice" if ctx.tier == "thorough"
-           else "offset 0 with the full lattice, offsets 1-5 with none/singles/all"))
+        % ("all 12 with the full lattice" if ctx.tier == "thorough"
+           else "offset 0 with the full lattice (pdu family: for 6 versions, one per event format x algorithm; the other "
+                "10 none/singles/all), offsets 4 and 8 with none/singles/all, the other 9 offsets with the shape all"))
     ctx.notes["constants"] = "Redaction_gen_{raw,pdu}_%s.cfg" % ctx.tier
     for fam in ("raw", "pdu"):
         r = ctx.tlc("Redaction_gen", "Redaction_gen_%s_%s.cfg" % (fam, ctx.tier), timeout=1500)
